@@ -43,6 +43,9 @@ public:
     bool encrypted = false;
     QVector<WireRecord> wire;      // everything ever written (the eavesdropper's view)
     QMap<QString, int> *faults = nullptr;
+    // observation hooks for oracles (called synchronously; must not touch the link)
+    std::function<void(int from, const QByteArray &)> onWrite;       // every write, at the moment it happens
+    std::function<void(int dir, const QByteArray &)> onDeliver;      // right before bytes are handed to the receiving end
 
     void write(int from, const QByteArray &data);
     bool pending(int dir) const { return !q[dir].isEmpty(); }
